@@ -21,6 +21,12 @@ Qed.
 Lemma inb_set_nth_same k s idx v : inb s idx -> k < length s -> v < nth k s 0 -> inb s (set_nth k v idx).
 Proof. intros H Hk Hv. rewrite <- (set_nth_id k 0 s Hk) at 1. now apply inb_set_nth. Qed.
 
+Lemma inb_nth_lt k : forall s idx, inb s idx -> k < length s -> nth k idx 0 < nth k s 0.
+Proof.
+  induction k; intros [|x s] [|i idx] H Hk; simpl in *; try lia; try tauto.
+  destruct H as [_ H2]. apply IHk; [exact H2 | lia].
+Qed.
+
 Section TuckerProofs.
 Context {F : Type} (Op : fops F).
 Hypothesis Rth : ring_theory (f0 Op) (f1 Op) (fadd Op) (fmul Op) (fsub Op) (fopp Op) (@eq F).
@@ -79,6 +85,63 @@ Proof.
   cbn [shape tabulate]. intros idx Hidx. rewrite get_tabulate by exact Hidx.
   fold (gg X idx). rewrite (Hspan idx Hidx). apply fsumn_ext. intros l Hl. f_equal.
   fold (gg Y (set_nth k l idx)). now apply HY.
+Qed.
+
+(* columns orthonormal OR ZERO (what svd="symeig_svd" returns for a wide, rank-deficient unfolding: U = (M V) / S has exact
+   zero columns for the null space): U U^T is still the orthogonal projector on the span of the non-zero columns *)
+Definition semi_orthonormal_cols (U : tensor F) (m r : nat) : Prop :=
+  exists z : nat -> bool,
+    (forall l i, l < r -> z l = true -> i < m -> gg U [i; l] = fz) /\
+    (forall j l, j < r -> l < r -> z j = false -> z l = false ->
+       fsum m (fun i => gg U [i; j] *f gg U [i; l]) = if Nat.eqb j l then fone else fz).
+
+Lemma orthonormal_semi (U : tensor F) (m r : nat) : orthonormal_cols U m r -> semi_orthonormal_cols U m r.
+Proof. intros H. exists (fun _ => false). split; [intros; discriminate | intros; now apply H]. Qed.
+
+Theorem mode_projector_exact_semi (X U : tensor F) (k r : nat) (c : nat -> list nat -> F) :
+  wf X -> k < ndim X -> shape U = [nth k (shape X) 0; r] ->
+  semi_orthonormal_cols U (nth k (shape X) 0) r -> mode_span X U k r c ->
+  exists Y, mode_dot Op X U k true = Ok Y /\ shape Y = set_nth k r (shape X) /\
+            mode_dot Op Y U k false = Ok X.
+Proof.
+  intros WX Hk HU (z & Hzero & Horth) Hspan. set (s := shape X) in *. set (nk := nth k s 0) in *.
+  unfold ndim in Hk. fold s in Hk.
+  unfold mode_dot at 1. unfold ndim, nrows, ncols. fold s. rewrite HU. cbn [length nth].
+  fold nk. replace (k <? length s) with true by (symmetry; now apply Nat.ltb_lt).
+  rewrite !Nat.eqb_refl. cbn [andb].
+  eexists. split; [reflexivity|]. split; [reflexivity|].
+  set (Y := tabulate (set_nth k r s) _).
+  assert (HY : forall idx l, inb s idx -> l < r -> z l = false -> gg Y (set_nth k l idx) = c l (remove_nth k idx)).
+  { intros idx l Hidx Hl Hzl. unfold Y, g at 1. rewrite get_tabulate by (now apply inb_set_nth).
+    pose proof (inb_length _ _ Hidx) as Hlen.
+    rewrite nth_set_nth_same by lia.
+    transitivity (fsum nk (fun j => gg U [j; l] *f fsum r (fun l' => gg U [j; l'] *f c l' (remove_nth k idx)))).
+    - apply fsumn_ext. intros j Hj. f_equal. rewrite set_nth_set_nth.
+      rewrite (Hspan (set_nth k j idx)) by (apply inb_set_nth_same; assumption).
+      rewrite nth_set_nth_same by lia. rewrite remove_nth_set_nth. reflexivity.
+    - transitivity (fsum r (fun l' => fsum nk (fun j => gg U [j; l] *f gg U [j; l']) *f c l' (remove_nth k idx))).
+      + rewrite (fsumn_ext Op nk _ (fun j => fsum r (fun l' => gg U [j; l] *f gg U [j; l'] *f c l' (remove_nth k idx)))).
+        * rewrite (fsumn_exchange Op Rth). apply fsumn_ext. intros l' _. now rewrite (fsumn_scale_r Op Rth).
+        * intros j _. rewrite <- (fsumn_scale_l Op Rth). apply fsumn_ext. intros l' _. ring.
+      + rewrite (fsumn_single Op Rth r l).
+        * rewrite Horth by assumption. rewrite Nat.eqb_refl. ring.
+        * exact Hl.
+        * intros l' Hl' Hne. destruct (z l') eqn:Ezl'.
+          -- rewrite (fsumn_zero Op Rth); [ring|]. intros j Hj. rewrite (Hzero l' j Hl' Ezl' Hj). ring.
+          -- rewrite Horth by assumption. destruct (Nat.eqb_spec l l'); [exfalso; apply Hne; auto | ring]. }
+  unfold mode_dot. unfold ndim, nrows, ncols. rewrite HU. cbn [length nth].
+  assert (EsY : shape Y = set_nth k r s) by reflexivity. rewrite EsY.
+  rewrite set_nth_length. replace (k <? length s) with true by (symmetry; now apply Nat.ltb_lt).
+  rewrite nth_set_nth_same by exact Hk. rewrite !Nat.eqb_refl. cbn [andb]. f_equal.
+  rewrite set_nth_set_nth. fold nk. unfold nk. rewrite set_nth_id by exact Hk.
+  apply (tensor_ext fz); [apply wf_tabulate | exact WX | reflexivity |].
+  cbn [shape tabulate]. intros idx Hidx. rewrite get_tabulate by exact Hidx.
+  fold (gg X idx). rewrite (Hspan idx Hidx). apply fsumn_ext. intros l Hl.
+  destruct (z l) eqn:Ezl.
+  - pose proof (inb_length _ _ Hidx) as Hlen.
+    assert (Hi : nth k idx 0 < nk) by (apply (inb_nth_lt k s idx); assumption).
+    rewrite (Hzero l (nth k idx 0) Hl Ezl Hi). ring.
+  - f_equal. fold (gg Y (set_nth k l idx)). now apply HY.
 Qed.
 
 End TuckerProofs.
